@@ -144,6 +144,17 @@ type Contracts struct {
 	ModSets   map[string][2]string // name -> (param, list text)
 	ObjInvs   map[string][]*TypeInv // qualified type -> invariants over mutable state (assumed at entry / proved at exit of `entry` methods)
 	Abstractions map[string]*Abstraction // ghost global name -> definition over the state of a receiver type
+	Writers   []*WritersDecl
+	GlobalInvs map[string][]*Clause // package path -> invariants over package-level variables
+}
+
+// WritersDecl: `writers [tags] T.f in F1, F2` - only the listed functions may store to field T.f (syntactic, whole module).
+type WritersDecl struct {
+	Tags  []string
+	Field string // qualified T.f
+	Funcs []string
+	Src   string
+	Pkg   string
 }
 
 // Abstraction defines a ghost global map as a function of the state of the object whose method is being
@@ -156,11 +167,12 @@ type Abstraction struct {
 	E    Expr
 	Src  string
 	Pkg  string
+	Havocs []*ModEntry // concrete locations a callee's `modifies $G[k]` stands for
 }
 
 func newContracts() *Contracts {
 	return &Contracts{Funcs: map[string]*FuncContract{}, Loops: map[string]*LoopContract{}, Preds: map[string]*PredDef{},
-		Tables: map[string]*TableDef{}, Derived: map[string][2]string{}, TypeInvs: map[string]*TypeInv{}, Immutable: map[string]bool{}, Consts: map[string]string{}, ModSets: map[string][2]string{}, ObjInvs: map[string][]*TypeInv{}, Abstractions: map[string]*Abstraction{}}
+		Tables: map[string]*TableDef{}, Derived: map[string][2]string{}, TypeInvs: map[string]*TypeInv{}, Immutable: map[string]bool{}, Consts: map[string]string{}, ModSets: map[string][2]string{}, ObjInvs: map[string][]*TypeInv{}, Abstractions: map[string]*Abstraction{}, GlobalInvs: map[string][]*Clause{}}
 }
 
 var (
@@ -409,6 +421,12 @@ func (cs *Contracts) loadContractFile(path, pkgPath string, short map[string]str
 					continue
 				}
 				me := &ModEntry{Src: item}
+				if strings.HasPrefix(item, "class(") && strings.HasSuffix(item, ")") {
+					// raw heap class, e.g. class("elems:net.IP"): all slice elements of that type
+					me.Class = strings.Trim(item[6:len(item)-1], `"`)
+					curF.Modifies = append(curF.Modifies, me)
+					continue
+				}
 				e, err := parseSpec(item)
 				if err != nil {
 					return fail("%v", err)
@@ -605,17 +623,64 @@ func (cs *Contracts) loadContractFile(path, pkgPath string, short map[string]str
 				return err
 			}
 			cs.Axioms = append(cs.Axioms, &AxiomDef{Name: c.Label, E: c.E, Src: c.Src, Pkg: pkgPath})
+		case "globalinv":
+			c, err := parseClause("globalinv", cs.expandModSets(rest), path, lineNo)
+			if err != nil {
+				return err
+			}
+			cs.GlobalInvs[pkgPath] = append(cs.GlobalInvs[pkgPath], c)
+		case "writers":
+			wd := &WritersDecl{Src: rest, Pkg: pkgPath}
+			r := rest
+			if m := reTags.FindStringSubmatch(r); m != nil {
+				for _, t := range strings.Split(m[1], ",") {
+					wd.Tags = append(wd.Tags, strings.TrimSpace(t))
+				}
+				r = r[len(m[0]):]
+			}
+			i := strings.Index(r, " in ")
+			if i < 0 {
+				return fail("writers T.f in F1, F2")
+			}
+			f := strings.TrimSpace(r[:i])
+			k := strings.LastIndex(f, ".")
+			wd.Field = cs.qualify(f[:k], pkgPath, short) + f[k:]
+			for _, fn := range splitTop(r[i+4:]) {
+				wd.Funcs = append(wd.Funcs, fn)
+			}
+			cs.Writers = append(cs.Writers, wd)
 		case "abstraction":
 			// abstraction $Trusted[s] of (h *Hub) := expr
 			m := regexp.MustCompile(`^(\$\w+)\[(\w+)\]\s+of\s+\((\w+)\s+\*?([\w./]+)\)\s*:=\s*(.*)$`).FindStringSubmatch(rest)
 			if m == nil {
 				return fail("abstraction $G[k] of (x *T) := expr")
 			}
-			e, err := parseSpec(cs.expandModSets(m[5]))
+			body := cs.expandModSets(m[5])
+			var hv []*ModEntry
+			if i := strings.Index(body, " havocs "); i >= 0 {
+				for _, item := range splitTop(body[i+8:]) {
+					he, err := parseSpec(item)
+					if err != nil {
+						return fail("%v", err)
+					}
+					me := &ModEntry{Src: item}
+					switch x := he.(type) {
+					case EField:
+						me.E, me.Field = x.X, x.Name
+					case EIndex:
+						me.E, me.Index = x.X, x.I
+					default:
+						return fail("bad havocs entry %q", item)
+					}
+					hv = append(hv, me)
+				}
+				body = body[:i]
+			}
+			e, err := parseSpec(body)
 			if err != nil {
 				return fail("%v", err)
 			}
-			cs.Abstractions[m[1]] = &Abstraction{Name: m[1], Key: m[2], Var: m[3], Type: cs.qualify(m[4], pkgPath, short), E: e, Src: m[5], Pkg: pkgPath}
+			cs.Abstractions[m[1]] = &Abstraction{Name: m[1], Key: m[2], Var: m[3], Type: cs.qualify(m[4], pkgPath, short), E: e, Src: m[5], Pkg: pkgPath, Havocs: hv}
 		case "implements":
 			if curF == nil {
 				return fail("implements outside a function contract")
@@ -624,7 +689,7 @@ func (cs *Contracts) loadContractFile(path, pkgPath string, short map[string]str
 			curF.Implements = "iface:" + cs.qualify(rest[:i], pkgPath, short) + rest[i:]
 		case "modset", "macro":
 			// modset hs(c) := c.a, c.b, ...
-			m := regexp.MustCompile(`^(\w+)\((\w*)\)\s*:=\s*(.*)$`).FindStringSubmatch(rest)
+			m := regexp.MustCompile(`^(\w+)\(([\w, ]*)\)\s*:=\s*(.*)$`).FindStringSubmatch(rest)
 			if m == nil {
 				return fail("modset name(x) := list")
 			}
@@ -780,7 +845,20 @@ func (cs *Contracts) expandModSets1(s string) string {
 		if ms[0] == "" {
 			return ms[1]
 		}
-		pr := regexp.MustCompile(`\b` + regexp.QuoteMeta(ms[0]) + `\b`)
-		return pr.ReplaceAllString(ms[1], sm[2])
+		params := strings.Split(ms[0], ",")
+		args := strings.Split(sm[2], ",")
+		if len(params) != len(args) {
+			return m
+		}
+		// simultaneous substitution through placeholders
+		body := ms[1]
+		for i, pn := range params {
+			pr := regexp.MustCompile(`\b` + regexp.QuoteMeta(strings.TrimSpace(pn)) + `\b`)
+			body = pr.ReplaceAllString(body, fmt.Sprintf("\x00%d\x00", i))
+		}
+		for i, a := range args {
+			body = strings.ReplaceAll(body, fmt.Sprintf("\x00%d\x00", i), strings.TrimSpace(a))
+		}
+		return body
 	})
 }
